@@ -106,6 +106,22 @@ func hasPrefix(segs, pre []string) bool {
 	return true
 }
 
+// subtreeEnd returns the index just past the events that lie under the load at index i:
+// the following events whose path has the load's path as a prefix, up to (not including)
+// the next load at exactly the same path -- a selector may list one child twice (a union of
+// two field selectors naming the same field), and that second occurrence is a sibling, not a descendant.
+func subtreeEnd(evs []ev, i int) int {
+	x := evs[i]
+	j := i + 1
+	for j < len(evs) && hasPrefix(evs[j].Segs, x.Segs) {
+		if evs[j].K == 'l' && len(evs[j].Segs) == len(x.Segs) {
+			break
+		}
+		j++
+	}
+	return j
+}
+
 type walkRes struct {
 	evs []ev
 	err error
@@ -275,6 +291,10 @@ func (S) RunTape(t *sim.Tape, st *sim.Stats, keepLog bool) *sim.Outcome {
 	// selector: regenerate until one compiles (bounded)
 	ssb := builder.NewSelectorSpecBuilder(basicnode.Prototype.Any)
 	var spec builder.SelectorSpec
+	gen.FieldHints = nil
+	if g.Root.K == model.Map {
+		gen.FieldHints = g.Root.Keys
+	}
 	for try := 0; try < 5 && w.sel == nil; try++ {
 		if t.Pct(50, "sel.everything") {
 			spec = ssb.ExploreRecursive(selector.RecursionLimitNone(), ssb.ExploreUnion(ssb.Matcher(), ssb.ExploreAll(ssb.ExploreRecursiveEdge())))
@@ -526,10 +546,7 @@ func (S) RunTape(t *sim.Tape, st *sim.Stats, keepLog bool) *sim.Outcome {
 				if x.K == 'l' {
 					if seen[x.Link] {
 						// drop this load and everything under it
-						j := i + 1
-						for j < len(w0.evs) && hasPrefix(w0.evs[j].Segs, x.Segs) {
-							j++
-						}
+						j := subtreeEnd(w0.evs, i)
 						i = j - 1
 						cut = true
 						continue
@@ -573,10 +590,7 @@ func (S) RunTape(t *sim.Tape, st *sim.Stats, keepLog bool) *sim.Outcome {
 				x := w0.evs[i]
 				want = append(want, x)
 				if x.K == 'l' && skip[x.Link] {
-					j := i + 1
-					for j < len(w0.evs) && hasPrefix(w0.evs[j].Segs, x.Segs) {
-						j++
-					}
+					j := subtreeEnd(w0.evs, i)
 					if j > i+1 {
 						cut = true
 					}
